@@ -643,6 +643,13 @@ func (e *Engine) removeExited(st *State) {
 	for _, t := range st.Threads {
 		if t.Exited {
 			st.ExitedBlocks += t.Blocks
+			if e.RaceCheck && len(t.Open) > 0 && len(st.Ghosts)+len(t.Open) <= maxGhosts {
+				gs := append([]ghostRec(nil), st.Ghosts...)
+				for i, a := range t.Open {
+					gs = append(gs, ghostRec{a, t.ID, t.Blocks, i})
+				}
+				st.Ghosts = gs
+			}
 			continue
 		}
 		out = append(out, t)
